@@ -12,7 +12,7 @@ S=$(mktemp -d /var/tmp/slimsim.XXXXXX); trap 'rm -rf "$S"' EXIT
 echo "nondeterminism sources in harness/runtime (expect only comments / none):"
 grep -n "\.Range(\|time\.Now\|math/rand\|rand\." "$VERIF"/sim/harness/*.go "$VERIF"/sim/simrt/*.go | grep -v "time.Now()\|t0\|start\|lastChange\|r\.\|rng\.\|srng\.\|chunkRng\." | head
 BAD=0
-for PROP in C11 C20 C05; do
+for PROP in C11 C20 C05 C07; do
   for ((seed=1; seed<=NSEEDS; seed++)); do
     "$S/bin/harness" determinism -prop $PROP -seed $seed -runs $RUNS -fixtures /repo/trie/testdata > "$S/out/det-$PROP-$seed.log" 2>&1 &
     if (( seed % 16 == 0 )); then wait; fi
